@@ -386,7 +386,9 @@ Proof.
   assert (Hd3 : r_dict st3 = r_dict s) by reflexivity.
   destruct (comp_read H zdecomp hd fuel st3 n ud) as [[o'| |] st4] eqn:Ecr; try discriminate.
   (* comp_read is the loop: no import at this point *)
-  unfold comp_read in Ecr. unfold st3 at 1 2, seek in Ecr. rsimpl. rewrite Her in Ecr. cbn [negb] in Ecr. cbv iota in Ecr.
+  assert (Hs3 : r_started st3 = true) by reflexivity.
+  assert (He3 : r_err st3 = r_err s) by reflexivity.
+  unfold comp_read in Ecr. rewrite He3, Her, Hs3, Hd3 in Ecr. cbn [negb] in Ecr. cbv iota in Ecr.
   destruct (N.eqb_spec n 0) as [En0|En0].
   { injection Ecr as <- <-. unfold st3 in E. rsimpl. rewrite En0 in E.
     destruct (N.leb_spec (c_ulen c) 0) as [Hle|_]; [lia|]. cbn [andb] in E. injection E as <- <-.
@@ -401,7 +403,7 @@ Proof.
   { left. unfold RQopen, st3, seek, set_idx, set_chash, set_rest. rsimpl.
     split; [reflexivity|]. split; [reflexivity|]. split; [lia|]. split; [lia|].
     split; [unfold body, data_offset; rewrite dropN_dropN; f_equal; lia|]. split; [reflexivity|].
-    destruct zs; repeat split; reflexivity. }
+    destruct zs; [repeat split; reflexivity|split; [reflexivity|now left]]. }
   pose proof (RQ_loop H zdecomp hd f c next (c_start c) dict' Hcl ud n fuel st3 [] false ltac:(lia) ltac:(cbn; lia) HQ0 eq_refl) as Hl.
   rewrite Ecr in Hl. destruct Hl as (HQ4 & Hd4 & Hex & Hnd).
   assert (Hdd : dict' = match k with O => None | _ => r_dict s end).
@@ -426,7 +428,7 @@ Proof.
     { destruct next; unfold set_eof; rsimpl; congruence. }
     intros _.
     assert (Hdat : r_data st4 = []).
-    { apply Hnd; [reflexivity|]. unfold RQopen. rewrite Ez. repeat split; assumption. }
+    { apply Hnd; [reflexivity|]. unfold RQopen. rewrite Ez. repeat (split; [assumption|]). exact A7. }
     destruct A7 as [B1 _]. rewrite Hdc', Hdat, !app_nil_r, Hloc in B1.
     (* the end-of-chunk verification passed *)
     unfold end_dchunk, validate_current in Ee. rewrite A6, Hloc in Ee.
@@ -435,12 +437,12 @@ Proof.
     destruct (N.eqb_spec (c_clen c) (c_ulen c)) as [Hcu|]; [|discriminate].
     split; [unfold digest_ok; rewrite <- Hsub; exact Hok|].
     unfold decode_chunk. rewrite <- Hcu, N.eqb_refl. f_equal. rewrite <- Hsub, <- B1.
-    symmetry. apply takeN_all. rewrite B1. unfold sub, takeN. rewrite !firstn_length. unfold len. lia.
+    symmetry. apply takeN_all. rewrite B1, sub_as, len_takeN. lia.
   - injection E as <- <-. split; [congruence|]. intros Hle.
     apply andb_false_iff in Hcond. destruct Hcond as [Hc|Hc]; [apply N.leb_gt in Hc; lia|].
     destruct HQ4 as [HO|HC].
     { exfalso. destruct HO as (A1 & _). rewrite A1, Nat.eqb_refl in Hc. discriminate. }
-    destruct (RQ_closed_result H zdecomp hd f c next (c_start c) dict' st4 o' n HC Hex Hle) as [(V1 & V2) Hdecode].
+    destruct (RQ_closed_result H zdecomp hd f c next (c_start c) dict' Hcl st4 o' n HC Hex Hle) as [(V1 & V2) Hdecode].
     rewrite Hsub, Hdd in Hdecode. split; [unfold digest_ok; rewrite <- Hsub; exact V2|exact Hdecode].
 Qed.
 End RequestAPI.
